@@ -312,7 +312,9 @@ Enabled(o, S) ==
     [] o.op = "DelIdentity" -> IF o.loc = "ext" THEN ~S.txn /\ o.i \in db.ids ELSE o.i \in db.ids \cup S.disk.ids
     [] o.op = "GetSigner" ->
          (CASE o.by = "default" -> TRUE
-            [] o.by = "identity" -> o.i \in db.ids
+            \* an identity that does not exist (never created, or deleted) can only be asked for by name: KeyError,
+            \* never the signer of another (the default) identity
+            [] o.by = "identity" -> o.i \in db.ids \/ o.t = "none"
             [] o.by = "key" -> o.k \in db.keys \/ (o.t = "none" /\ ((o.k \in S.gone /\ o.loc = "cert") \/ o.k \in S.xgone))
             [] o.by = "cert" -> o.c \in db.certs \/ (o.t = "none" /\ o.c[1] \in S.gone \cup S.xgone /\ o.loc = "cert"))
     [] o.op = "Close" -> TRUE
